@@ -209,18 +209,31 @@ def sample_oracle(seed, model=None, interp=None):
     interp = i_ if interp is None else interp
     if model == "oLCDM" and abs(p.get("ok", 0.0)) < 1e-3:
         p["ok"] = rng.choice([-1, 1]) * rng.uniform(0.05, 0.3)      # a curved model proper
-    cl = CosmoLikelihood(lenses, model, km, kb, interpolate_cosmo=interp, num_redshift_interp=400)
+    tab = interp == "table"
+    cl = CosmoLikelihood(lenses, model, km, kb, interpolate_cosmo=bool(interp), num_redshift_interp=400)
     names = cl.param.param_list()
     vals = []
     s0 = rng.randrange(2 ** 30)
+    ztop = max(l["z_source"] for l in lenses) * 1.05 + 0.01
     for h0 in (rng.uniform(35, 60), rng.uniform(65, 75), rng.uniform(85, 140)):
         x = [h0 if n == "h0" else p[n] for n in names]
         np.random.seed(s0)
-        vals.append(float(np.squeeze(cl.likelihood(x))))
-    tol = (2e-4 if interp else 1e-7) * max(1.0, abs(vals[0]))
+        if tab:
+            # the fourth supply mode: the user tabulates the distances of the cosmology at this H0 (astropy, without
+            # hierArc) and hands the table over together with the curvature (Omega_k and K = -Omega_k / D_H^2)
+            from harness.props import c05
+            co = c05.astropy_of(c05.flrw_params(model, dict(p, h0=h0)))
+            zg = np.linspace(0.0, ztop, 300)
+            table = {"ang_diameter_distances": co.angular_diameter_distance(zg).value, "redshifts": zg,
+                     "ok": float(co.Ok0), "K": float((-co.Ok0 / co.hubble_distance ** 2).value)}
+            vals.append(float(np.squeeze(cl.likelihood(x, kwargs_cosmo_interp=table))))
+        else:
+            vals.append(float(np.squeeze(cl.likelihood(x))))
+    tol = (1e-6 if tab else 2e-4 if interp else 1e-7) * max(1.0, abs(vals[0]))
     if max(vals) - min(vals) > tol:
-        return "a %s sample of distance-ratio lenses (%s) has an H0-dependent log-probability: %r" % (
-            model, "populations of finite width, same seed at every H0" if scatter else "sharp populations", vals)
+        return "a %s sample of distance-ratio lenses (%s%s) has an H0-dependent log-probability: %r" % (
+            model, "populations of finite width, same seed at every H0" if scatter else "sharp populations",
+            ", distances tabulated by the user at each H0" if tab else "", vals)
     return None
 
 
@@ -266,13 +279,14 @@ def run(ctx, res):
                         "ds1": f2b(1.0), "dds1": f2b(1.0), "ds2": f2b(1.0), "dds2": f2b(1.0)}
                 lines.append(line)
                 meta.append((case["ltype"], v, scaled))
-    for _ in range(ctx.n(16, 96)):
+    for _ in range(ctx.n(20, 100)):
         sseed = rng.randrange(2 ** 30)
         k_ = res.distribution.get("sample_tried", 0)
         res.count("sample_tried")
         # every model x supply mode in turn; the curved model with interpolation (its own curvature scale, its own table) more often
         combos = [(m_, i_) for i_ in (False, True) for m_ in ("FLCDM", "FwCDM", "w0waCDM", "oLCDM")] + \
-                 [("oLCDM", True)] * 3 + [("w0waCDM", True), ("FwCDM", True), ("FLCDM", True), ("oLCDM", False), ("w0waCDM", False)]
+                 [("oLCDM", True)] * 3 + [("w0waCDM", True), ("FwCDM", True), ("FLCDM", True), ("oLCDM", False), ("w0waCDM", False)] + \
+                 [("oLCDM", "table")] * 3 + [("FLCDM", "table")]
         smodel, sinterp = combos[k_ % len(combos)]
         try:
             f = sample_oracle(sseed, smodel, sinterp)
